@@ -4,16 +4,25 @@ R-TERM  argument roles of the Wigner-D and of the two Clebsch-Gordan coefficient
         formula stated in the property.
 R-FOLD  every transition of a group and every node of a transition reaches the accumulator,
         and the accumulator is folded whole (sum over transitions, product over nodes).
+
+How the rules read the code (second robustness round): R-TERM evaluates the functions into terms (sa/terms.py) and
+compares argument roles; R-FOLD and R-GROUPKEY execute the code symbolically (sa/symex.py) with the whole fold
+chain inlined and judge the VALUES that reach ``model.amplitudes`` / ``model.components`` / the returned intensity
+resp. the key under which a transition is grouped - loops, comprehensions, generator helpers, ``map`` / ``chain`` /
+``reduce`` / ``sum`` / ``math.prod``, running sums, accumulators passed down, temporaries and helper methods all
+give the same value.  Every verdict is three-valued: a completely followed value that breaks the condition is a
+VIOLATION, a value (or an absence) that the execution did not follow completely is an ANALYSIS-ERROR.
 """
 
 from __future__ import annotations
 
 import ast
 
-from ..dataflow import RD
-from ..loader import AnalysisError, FuncInfo, Tree, ancestors, unparse, walk_function
+from ..loader import AnalysisError, Tree, ancestors, unparse
 from ..poly import RF, D, equal, sym
 from ..report import Check
+from ..symex import (SymEx, addends, as_number, calls_of, cases, contains, expand_ranges, factors, flatten_each, free_eaches, func_name, not_followed, show, show_pc,
+                     subst, subterms, unwrap)
 from ..terms import Opaque, TermEval, Tup, vkey
 
 PID = "C02"
@@ -163,6 +172,16 @@ def _same(te: TermEval, got, want: RF) -> bool:
         return False
 
 
+def _role_differs(te: TermEval, got, want: RF, role: str) -> bool:
+    """Three-valued comparison of one argument role: False (equal), True (a scalar term that differs) - or
+    ANALYSIS-ERROR when the argument did not evaluate to a scalar term at all."""
+    try:
+        term = te._rf(got)
+    except AnalysisError as exc:
+        raise AnalysisError(f"the argument `{role}` does not evaluate to a scalar term: {exc}") from None
+    return not equal(term, want)
+
+
 def check_wigner_d(ctx: Check, tree: Tree) -> None:
     D.reset()
     te = decay_evaluator(tree)
@@ -192,7 +211,7 @@ def check_wigner_d(ctx: Check, tree: Tree) -> None:
             g = got.get(role)
             if g is None:
                 problems.append(f"{role} missing")
-            elif not _same(te, g, w):
+            elif _role_differs(te, g, w, role):
                 problems.append(f"{role} = {g!r} instead of {w!r}")
         ctx.verdict(not problems, "R-TERM", f"{fn.qual}::roles{suffix}", tree.loc(fn.node),
                     f"Wigner-D of a node{on}: D^J_{{m, l1-l2}}(-phi, theta, 0) with J, m of the parent, l1, l2 of children[0], children[1] and the angle symbols of children[0]", problems or None)
@@ -240,7 +259,7 @@ def _check_cg_path(ctx: Check, tree: Tree, te: TermEval, fn, val, cond) -> None:
     }
 
     def matches(got, want):
-        return [f"{k} = {got.get(k)!r} instead of {w!r}" for k, w in want.items() if not _same(te, got.get(k), w)]
+        return [f"{k} = {got.get(k)!r} instead of {w!r}" for k, w in want.items() if got.get(k) is None or _role_differs(te, got.get(k), w, k)]
 
     # assign the two factors to the two specifications (order of the product is irrelevant)
     best = None
@@ -260,481 +279,969 @@ def _check_cg_path(ctx: Check, tree: Tree, te: TermEval, fn, val, cond) -> None:
 
 
 # --------------------------------------------------------------------------- R-FOLD
+# The fold chain (top expression -> register -> topology amplitude -> sequential decay) is executed symbolically as
+# ONE function (sa/symex.py): private helpers, generator functions, comprehensions, accumulator loops, `sum` / `reduce`
+# / `math.prod`, temporaries and aliases all reduce to the same values.  The rules read WHAT ends up in
+# `model.amplitudes`, `model.components` and the returned intensity - not how the chain is cut into methods:
+#
+#   amplitudes[create_amplitude_symbol(..)] = sum over every transition t of the topology group and every graph g of
+#       _perform_combinatorics(t) of   [coefficient(c) *] prod over every node n of c.topology.nodes of
+#       _formulate_partial_decay(c, n) [* prefactor(c) iff it is not None],   c = _freeze(g)
+#   components["A_{name(c)}"] (+)= that chain amplitude;   components["I_{..}"] = |sum over the topologies|^2
+#   intensity = PoolSum(|formulate_amplitude(..)|^2, ...)
+#
+# Three-valued: a value that was completely followed and breaks the condition is a VIOLATION, a value the symbolic
+# execution (or this reading) cannot interpret is an ANALYSIS-ERROR.
 
-FOLD_CHAIN = [
-    "__formulate_top_expression",
-    "__register_amplitudes",
-    "__formulate_topology_amplitude",
-    "__formulate_sequential_decay",
-]
-FOLDS = {"sum", "reduce", "Add", "Mul", "prod"}
+CHAIN_ATOMS = frozenset({
+    "_perform_combinatorics", "_freeze", "_formulate_partial_decay", "__generate_amplitude_coefficient", "__generate_amplitude_prefactor",
+    "__register_vanishing_amplitudes", "group_by_spin_projection", "group_by_topology", "__generate_helicity_coupling", "__formulate_dynamics",
+    "formulate_isobar_wigner_d", "formulate_isobar_cg_coefficients",
+})
+# functions whose meaning the rules know (a value built from them and from plain Python is "completely followed")
+KNOWN = (
+    "_perform_combinatorics", "_freeze", "_formulate_partial_decay", "__generate_amplitude_coefficient", "__generate_amplitude_prefactor",
+    "group_by_spin_projection", "group_by_topology", "create_amplitude_symbol", "generate_amplitude_name", "generate_transition_label",
+    "collect_spin_projections", "formulate_amplitude", "PoolSum", "__generate_helicity_coupling", "__formulate_dynamics",
+    "formulate_isobar_wigner_d", "formulate_isobar_cg_coefficients", "generate_sequential_amplitude_suffix", "generate_two_body_decay_suffix",
+    "TwoBodyDecay.from_transition", "TwoBodyDecay.create",
+    "__register_vanishing_amplitudes",  # defines the amplitude symbols without a transition as 0 (C01); never a coherent sum
+)
+SEQ = f"{BUILDER}.__formulate_sequential_decay"
+TAM = f"{BUILDER}.__formulate_topology_amplitude"
+REG = f"{BUILDER}.__register_amplitudes"
+TOP = f"{BUILDER}.__formulate_top_expression"
+WHOLE_BUILTINS = {"list", "tuple", "sorted", "reversed", "iter"}
+PARTIAL_BUILTINS = {"filter", "next", "min", "max"}
+PARTIAL_LIBRARY = {"itertools.islice", "itertools.takewhile", "itertools.dropwhile", "itertools.filterfalse", "itertools.compress", "random.sample", "random.choice", "heapq.nsmallest", "heapq.nlargest"}
 
 
-def _iter_is_whole(it: ast.AST) -> str | None:
-    """None if the iterable is a whole collection; otherwise the reason."""
-    for n in ast.walk(it):
-        if isinstance(n, ast.Subscript) and isinstance(n.slice, ast.Slice):
-            return f"iterable `{unparse(it)[:50]}` is sliced"
-        if isinstance(n, ast.Call) and isinstance(n.func, ast.Name) and n.func.id in {"filter", "islice", "takewhile", "dropwhile"}:
-            return f"iterable `{unparse(it)[:50]}` is filtered with {n.func.id}"
+def same_self(v):
+    """``self`` inside a loop that writes through it (``self.x[k] = v``) is still ``self``."""
+    if isinstance(v, tuple):
+        carried = {t: ("param", "self") for t in subterms(v) if t[0] == "carried" and t[1] == "self"}
+        if carried:
+            v = subst(v, carried)
+    return v
+
+
+def _self_mapping(v) -> str | None:
+    """``"amplitudes"`` for the value of ``self.<...>.amplitudes`` (an attribute path on ``self``)."""
+    if not (isinstance(v, tuple) and v and v[0] == "attr"):
+        return None
+    root = v
+    while isinstance(root, tuple) and root and root[0] == "attr":
+        root = root[1]
+    return v[2] if root == ("param", "self") else None
+
+
+def whole_collection(it):
+    """(True, None) if iterating ``it`` visits every element of a collection, (False, why) if it definitely visits
+    only part of one, (None, why) if this reading cannot tell."""
+    if not (isinstance(it, tuple) and it):
+        return None, f"iterable {it!r}"
+    k = it[0]
+    if k in {"param", "attr", "each", "item", "global", "list", "tuple", "set", "dict", "foreach"}:
+        return True, None
+    if k == "sub":
+        if isinstance(it[2], tuple) and it[2] and it[2][0] == "slice":
+            return False, f"`{sx_show(it)[:60]}` is a slice of the collection"
+        return True, None  # one element of a mapping / sequence, iterated completely
+    if k == "phi":
+        verdicts = [whole_collection(x) for _, x in it[1]]
+        for ok, why in verdicts:
+            if ok is not True:
+                return ok, why
+        return True, None
+    if k == "call":
+        f = it[1]
+        if f[0] == "builtin":
+            if f[1] in WHOLE_BUILTINS and it[2]:
+                return whole_collection(it[2][0])
+            if f[1] in {"map", "zip", "enumerate"} and it[2]:
+                # visits every element of its iterables (a `map` that the execution could not expand element-wise)
+                for x in (it[2][1:] if f[1] == "map" else it[2]):
+                    ok, why = whole_collection(x)
+                    if ok is not True:
+                        return ok, why
+                return True, None
+            if f[1] in PARTIAL_BUILTINS:
+                return False, f"`{sx_show(it)[:60]}` selects part of the collection"
+            return None, f"`{sx_show(it)[:60]}`: a builtin this reading does not know"
+        if f[0] == "attr" and f[2] in {"values", "keys", "items", "copy"} and not it[2]:
+            return True, None
+        name = func_name(it)
+        if name in PARTIAL_LIBRARY:
+            return False, f"`{sx_show(it)[:60]}` selects part of the collection"
+        if f[0] in {"method", "localfunc"} or name.startswith("ampform") or name.startswith("qrules"):
+            return True, None  # the result of a function of the package IS the collection (what it contains is that function's business)
+        return None, f"`{sx_show(it)[:60]}`: whether this yields the whole collection is not known"
+    return None, f"`{sx_show(it)[:60]}`"
+
+
+def early_exits(sx, eaches) -> list[str]:
+    """`break` / `return` statements inside the `for` loops (of the analysed function or of an inlined helper /
+    generator function) whose generic element is one of ``eaches``: the loop does not visit every element."""
+    wanted = {e for e in eaches}
+    out = []
+    for info in sx.loops.values():
+        if info.each is None:
+            continue
+        e = flatten_each(same_self(info.each))
+        if e not in wanted and same_self(info.each) not in wanted:
+            continue
+        todo = list(info.node.body)
+        while todo:
+            n = todo.pop()
+            if isinstance(n, (ast.FunctionDef, ast.AsyncFunctionDef, ast.Lambda, ast.ClassDef)):
+                continue
+            if isinstance(n, ast.Return) or (isinstance(n, ast.Break) and _innermost_loop_node(n) is info.node):
+                out.append(f"`{type(n).__name__.lower()}` inside the loop over `{show(info.each[1])[:50]}` (line {getattr(n, 'lineno', '?')}): later elements never contribute")
+            todo.extend(ast.iter_child_nodes(n))
+    return sorted(set(out))
+
+
+def _innermost_loop_node(node: ast.AST):
+    for a in ancestors(node):
+        if isinstance(a, (ast.For, ast.While, ast.AsyncFor)):
+            return a
     return None
 
 
-CHAIN_SOURCES = ("transitions", "transition_group", "transition_by_topology", "spin_groups", "sequential_graphs", "topology.nodes", "_perform_combinatorics", "group_by_")
+def mentions(v, name: str) -> bool:
+    """Is the function ``name`` called inside ``v`` - or handed over as a function value (``map(name, xs)``)?"""
+    return bool(calls_of(v, name)) or any(x[0] in {"global", "localfunc"} and isinstance(x[1], str) and x[1].endswith(name) for x in subterms(v))
 
 
-def is_chain_iterable(it: ast.AST, rd: RD) -> bool:
-    """Does the iterable range over transitions / groups / symmetrisation graphs / nodes?"""
-    txt = unparse(it) + " ".join(unparse(d.value) for d in rd.closure(rd.uses(it)) if d.value is not None)
-    return any(sname in txt for sname in CHAIN_SOURCES)
+class Store:
+    """One write ``self.<..>.<mapping>[key] = value``: where it runs (ranges, conditions) and what it writes."""
+
+    def __init__(self, mapping: str, pc: tuple, key, value, ranges: tuple, text: str) -> None:
+        self.mapping, self.pc, self.key, self.value, self.ranges, self.text = mapping, pc, key, value, ranges, text
+
+
+class ChainModel:
+    """The effects of ``HelicityAmplitudeBuilder.__formulate_top_expression`` with the whole fold chain inlined."""
+
+    def __init__(self, tree: Tree) -> None:
+        self.tree = tree
+        self.top = tree.func(TOP)
+        sx = SymEx(tree, atoms=CHAIN_ATOMS, inline_depth=8)
+        ret, _ = sx.run(self.top)
+        self.sx = sx
+        self.ret = flatten_each(same_self(ret))
+        self.stores: list[Store] = []
+        self.unread: list[str] = []  # modifications of the two mappings that this reading cannot interpret
+        loops = {info.uid: info for info in sx.loops.values()}
+        for ev in sx.events:
+            kind, pc, ctx_loops = ev[0], same_self(ev[1]), ev[-1]
+            if kind == "store":
+                target, value = same_self(ev[2]), same_self(ev[3])
+                if target[0] == "sub" and _self_mapping(target[1]) in {"amplitudes", "components"}:
+                    self._add(_self_mapping(target[1]), pc, target[2], value, ctx_loops, loops, sx_show(target)[:80])
+                elif _self_mapping(target) in {"amplitudes", "components"}:
+                    if not (isinstance(value, tuple) and value and value[0] == "dict" and not value[1]):
+                        self.unread.append(f"`{sx_show(target)[:50]}` is re-bound to `{sx_show(value)[:50]}`")
+            elif kind == "call":
+                v = same_self(ev[2])
+                f = v[1]
+                if f[0] == "attr" and _self_mapping(f[1]) in {"amplitudes", "components"}:
+                    mapping = _self_mapping(f[1])
+                    arg = v[2][0] if len(v[2]) == 1 and not v[3] else None
+                    if f[2] == "update" and isinstance(arg, tuple) and arg and arg[0] == "dict" and not any(k[0] == "star" for k, _ in arg[1]):
+                        for k, x in arg[1]:
+                            eaches, pcs, key = unwrap(k)
+                            self._add(mapping, pc + pcs, key, x, ctx_loops, loops, sx_show(v)[:80], extra=eaches)
+                    elif f[2] == "setdefault" and len(v[2]) == 2 and not v[3] and as_number(v[2][1]) == 0:
+                        pass  # `m.setdefault(k, 0)` in front of `m[k] += x`: the entry exists, its value is untouched
+                    elif f[2] not in {"get", "keys", "values", "items", "copy"}:
+                        self.unread.append(f"`{sx_show(v)[:80]}`")
+
+    def _add(self, mapping, pc, key, value, ctx_loops, loops, text, extra=()) -> None:
+        eaches = []
+        for uid in ctx_loops:
+            info = loops.get(uid)
+            if info is None or info.each is None:
+                self.unread.append(f"{text}: written inside a `while` loop")
+                return
+            eaches.append(same_self(info.each))
+        eaches += list(extra)
+        ranges, conds = expand_ranges(eaches)
+        key, value = flatten_each(key), flatten_each(value)
+        pc = tuple(flatten_each(pc)) + conds if pc else conds
+        for e in free_eaches(("tuple", (key, value, pc))):
+            if e not in ranges:
+                ranges += (e,)
+        self.stores.append(Store(mapping, pc, key, value, ranges, text))
+
+    # ------------------------------------------------------------ the three writes the rules read
+    def _pick(self, mapping: str, marker: str) -> list[Store]:
+        return [s for s in self.stores if s.mapping == mapping and calls_of(s.key, marker)]
+
+    def amplitude_stores(self) -> list[Store]:
+        return [s for s in self.stores if s.mapping == "amplitudes" and not _is_zero(s.value)]
+
+    def chain_component_stores(self) -> list[Store]:
+        return self._pick("components", "generate_amplitude_name")
+
+    def group_component_stores(self) -> list[Store]:
+        return self._pick("components", "generate_transition_label")
+
+    def loose_ends(self) -> list[str]:
+        """Why the absence of an effect proves nothing: parts of the chain that were not followed (calls of methods /
+        package functions that were not inlined and whose meaning the rules do not know, unmodelled statements)."""
+        out = [*self.unread, *self.sx.imprecise]
+        for ev in self.sx.events:
+            if ev[0] in {"call", "localcall", "store"}:
+                for x in ev[2:4]:
+                    if isinstance(x, tuple) and x and isinstance(x[0], str):
+                        why = not_followed(same_self(x), KNOWN)
+                        if why and why not in out:
+                            out.append(why)
+        why = not_followed(self.ret, KNOWN)
+        if why:
+            out.append(why)
+        return out
+
+    def undecided(self, what: str) -> AnalysisError:
+        more = "; ".join(self.loose_ends()[:3])
+        return AnalysisError(f"{what}" + (f" ({more})" if more else ""))
+
+    def where(self, qual: str) -> str:
+        fn = self.tree.funcs.get(qual)
+        return self.tree.loc((fn or self.top).node)
+
+
+def _is_zero(v) -> bool:
+    return as_number(v) == 0
+
+
+def sx_show(v) -> str:
+    return show(v)
+
+
+def chain_model(tree: Tree) -> ChainModel:
+    cached = getattr(tree, "_c02_chain_model", None)
+    if cached is None:
+        cached = ChainModel(tree)
+        try:
+            tree._c02_chain_model = cached
+        except AttributeError:
+            pass
+    return cached
+
+
+def chain_factors(v, sx) -> list:
+    """``symex.factors`` plus multiplication folds whose step is conditional (a filtered comprehension / a guarded
+    accumulation): the generic factor then carries the condition (``foreach(e, when(pc, x))``)."""
+    out: list = []
+    for f in factors(v, sx):
+        if f[0] == "fold":
+            step, head, conds = f[3], f[4], ()
+            if step[0] == "when":
+                conds, step = step[1], step[2]
+            if step[0] == "mul" and list(step[1]).count(head) == 1:
+                rest = tuple(x for x in step[1] if x != head)
+                term = rest[0] if len(rest) == 1 else ("mul", rest)
+                if conds:
+                    term = ("when", conds, term)
+                for e in reversed(f[1]):
+                    term = ("foreach", e, term)
+                out += ([] if as_number(f[2]) == 1 else chain_factors(f[2], sx)) + [term]
+                continue
+        out.append(f)
+    return out
+
+
+def _sum_terms(v, sx):
+    """[(eaches, conditions, term)] of a sum value (None if ``v`` is not a sum; a zero start is dropped)."""
+    parts = addends(v, sx)
+    if parts is None:
+        return None
+    start, items = parts
+    out = []
+    if as_number(start) != 0:
+        out.append(unwrap(start))
+    for item in items:
+        if as_number(item) == 0:
+            continue
+        out.append(unwrap(item))
+    return out
+
+
+def coherent_sum(model: ChainModel):
+    """(store, [(eaches, conditions, chain term)]) of the one write into ``amplitudes`` that holds a sum over chains."""
+    stores = model.amplitude_stores()
+    if model.unread:
+        raise model.undecided("the amplitudes / components of the model are modified in a way the rule cannot read")
+    if len(stores) != 1:
+        return stores, None
+    terms = _sum_terms(stores[0].value, model.sx)
+    return stores, terms
+
+
+def _chain_of(term):
+    """The transition whose chain amplitude ``term`` is: the common first argument of its coefficient / prefactor /
+    partial-decay calls (None if there are none, False if they disagree)."""
+    firsts = set()
+    for name in ("_formulate_partial_decay", "__generate_amplitude_coefficient", "__generate_amplitude_prefactor"):
+        for c in calls_of(term, name):
+            if c[2]:
+                firsts.add(c[2][0])
+    if not firsts:
+        return None
+    return next(iter(firsts)) if len(firsts) == 1 else False
 
 
 def check_fold(ctx: Check, tree: Tree) -> None:
-    n_loops = 0
-    for name in FOLD_CHAIN:
-        fn = tree.func(f"{BUILDER}.{name}")
-        rd = RD(fn.node)
-        for node in walk_function(fn.node):
-            # ---- comprehensions / generator expressions
-            if isinstance(node, (ast.ListComp, ast.GeneratorExp)):
-                gen = node.generators[0]
-                if not is_chain_iterable(gen.iter, rd):
-                    continue
-                # one generator clause = one loop level (`for t in ts for g in graphs(t)` is the nested loop)
-                n_loops += sum(1 for i_, g_ in enumerate(node.generators) if i_ == 0 or is_chain_iterable(g_.iter, rd) or _uses_targets(g_.iter, node.generators[:i_]))
-                key = f"{fn.qual}::comprehension over {unparse(gen.iter)[:40]}"
-                problems = []
-                for i_, g_ in enumerate(node.generators):
-                    if g_.ifs:
-                        problems.append(f"elements are filtered: if {unparse(g_.ifs[0])[:40]}")
-                    why = _iter_is_whole(g_.iter)
-                    if why:
-                        problems.append(why)
-                    # every level feeds the next level or the element: no level is iterated for nothing
-                    later = [x.iter for x in node.generators[i_ + 1:]] + [node.elt]
-                    if not any(_uses_targets(x, [g_]) for x in later):
-                        problems.append(f"neither the element nor an inner level depends on the loop variable of `for {unparse(g_.target)} in {unparse(g_.iter)[:30]}`"
-                                        if len(node.generators) > 1 else "the element does not depend on the loop variable")
-                # the comprehension must reach a fold whole
-                consumer = _fold_consumer(node, rd, fn)
-                if consumer is None:
-                    problems.append("the collected terms never reach sum()/reduce()/Add/Mul whole")
-                ctx.verdict(not problems, "R-FOLD", key, tree.loc(node),
-                            f"{name}: every element of `{unparse(gen.iter)[:40]}` contributes `{unparse(node.elt)[:50]}` and the collection is folded by {consumer}", problems or None)
-            # ---- for loops
-            if isinstance(node, ast.For):
-                if not is_chain_iterable(node.iter, rd):
-                    continue
-                n_loops += 1
-                key = f"{fn.qual}::for {unparse(node.target)} in {unparse(node.iter)[:40]}"
-                problems = []
-                why = _iter_is_whole(node.iter)
-                if why:
-                    problems.append(why)
-                body_nodes = list(walk_function(node))
-                if any(isinstance(b, (ast.Continue, ast.Break)) for b in body_nodes if _innermost_loop(b, node)):
-                    problems.append("the loop body skips elements (continue/break)")
-                targets = {n.id for n in ast.walk(node.target) if isinstance(n, ast.Name)}
-                sinks = []
-                for b in body_nodes:
-                    if isinstance(b, ast.Call) and isinstance(b.func, ast.Attribute) and b.func.attr in {"append", "extend", "add"}:
-                        sinks.append(b)
-                    elif isinstance(b, ast.Call) and unparse(b.func).startswith("self.") and b in [s.value for s in node.body if isinstance(s, ast.Expr)]:
-                        sinks.append(b)  # registration call, e.g. self.__register_amplitudes(group)
-                    elif isinstance(b, ast.AugAssign):
-                        sinks.append(b)
-                inner_loops = [b for b in node.body if isinstance(b, ast.For)]
-                if not sinks and not inner_loops:
-                    problems.append("no accumulation in the loop body")
-                for s in sinks:
-                    if any(isinstance(a, ast.If) for a in _ancestors_until(s, node)):
-                        problems.append(f"accumulation `{unparse(s)[:40]}` is conditional")
-                    args = s.args if isinstance(s, ast.Call) else [s.value]
-                    dep_names = set()
-                    for a in args:
-                        dep_names |= {d.name for d in rd.closure(rd.uses(a))} | {n.id for n in ast.walk(a) if isinstance(n, ast.Name)}
-                    if not (targets & dep_names) and not inner_loops:
-                        problems.append(f"`{unparse(s)[:40]}` does not depend on the loop variable {sorted(targets)}")
-                # list accumulators must be folded whole afterwards
-                for s in sinks:
-                    if isinstance(s, ast.Call) and isinstance(s.func, ast.Attribute) and isinstance(s.func.value, ast.Name) and s.func.attr in {"append", "extend", "add"}:
-                        acc = s.func.value.id
-                        if not _name_folded_whole(acc, fn):
-                            problems.append(f"accumulator `{acc}` is not folded whole")
-                ctx.verdict(not problems, "R-FOLD", key, tree.loc(node), f"{name}: every `{unparse(node.target)}` of `{unparse(node.iter)[:40]}` is accumulated unconditionally", problems or None)
-    ctx.stats["fold_loops"] = n_loops
-    if n_loops < 5:
-        raise AnalysisError(f"only {n_loops} loops/comprehensions in the fold chain (5 confirmed)")
-
-
-def _uses_targets(expr: ast.AST, gens: list) -> bool:
-    """Does ``expr`` mention a variable bound by one of the generator clauses?"""
-    targets = {n.id for g in gens for n in ast.walk(g.target) if isinstance(n, ast.Name)}
-    return any(isinstance(n, ast.Name) and n.id in targets for n in ast.walk(expr))
-
-
-def _innermost_loop(node: ast.AST, loop: ast.For) -> bool:
-    for a in ancestors(node):
-        if isinstance(a, (ast.For, ast.While)):
-            return a is loop
-    return False
-
-
-def _ancestors_until(node, stop):
-    for a in ancestors(node):
-        if a is stop:
+    """R-FOLD: every transition of a topology group, every graph of its identical-particle symmetrisation and every
+    node of the chain reaches the amplitude, unconditionally, and the accumulated terms are folded whole."""
+    model = chain_model(tree)
+    sx = model.sx
+    stores, terms = coherent_sum(model)
+    key = f"{TAM}::coherent-sum"
+    where = model.where(TAM)
+    if len(stores) != 1:
+        if not stores and not model.loose_ends():
+            ctx.violation("R-FOLD", key, where, "no coherent sum over the chains of a topology group is stored as an amplitude of the model", None)
             return
-        yield a
+        raise model.undecided(f"{len(stores)} writes into the amplitudes of the model (one expected)")
+    store = stores[0]
+    if terms is None:
+        why = not_followed(store.value, KNOWN)
+        if why:
+            raise model.undecided(f"the amplitude stored by `{store.text}` is not a sum the rule can read: {why}")
+        ctx.violation("R-FOLD", key, where, "the amplitude of a topology group is the sum over its chains", f"`{sx_show(store.value)[:200]}` is not a sum")
+        return
+    problems: list[str] = []
+    chain_terms = []
+    for eaches, pcs, term in terms:
+        if not eaches:
+            why = not_followed(term, KNOWN)
+            if why:
+                raise model.undecided(f"an addend of the amplitude is not read: {why}")
+            problems.append(f"`{sx_show(term)[:80]}` is added once, not per transition and symmetrisation graph")
+            continue
+        if pcs:
+            problems.append(f"terms are only added when `{show_pc(pcs)[:100]}`: chains are dropped from the coherent sum")
+        levels = list(eaches)
+        for i, e in enumerate(levels):
+            ok, why = whole_collection(e[1])
+            if ok is False:
+                problems.append(f"not every element is summed: {why}")
+            elif ok is None:
+                raise model.undecided(f"cannot decide whether the sum runs over a whole collection: {why}")
+            later = [x[1] for x in levels[i + 1:]] + [term]
+            if not any(contains(x, e) for x in later):
+                problems.append(f"neither the summed term nor an inner level depends on the element of `{sx_show(e[1])[:60]}`: every element contributes the same term")
+        graphs = [e for e in levels if calls_of(e[1], "_perform_combinatorics")]
+        if not graphs:
+            raise model.undecided("the sum over the identical-particle symmetrisation (_perform_combinatorics) was not found in the amplitude")
+        for g in graphs:
+            arg = calls_of(g[1], "_perform_combinatorics")[0][2]
+            if not (arg and arg[0] in levels):
+                problems.append(f"`{sx_show(g[1])[:60]}` does not symmetrise the transition of the enclosing level")
+        chain_terms.append((eaches, term))
+    if store.pc:
+        problems.append(f"the amplitude is only stored when `{show_pc(store.pc)[:100]}`")
+    problems += early_exits(sx, [e for eaches, _, _ in terms for e in eaches])
+    per_graph = [e for e in store.ranges if calls_of(e[1], "_perform_combinatorics")]
+    if per_graph:
+        problems.append("the amplitude symbol is written once per symmetrisation graph: no entry holds the sum over all chains of the group")
+    ctx.verdict(not problems, "R-FOLD", key, where,
+                f"amplitude of a topology group = sum over every transition and every graph of _perform_combinatorics ({len(terms)} generic term(s), folded whole, unconditional)", problems or None)
+    ctx.stats["fold_levels"] = sum(len(e) for e, _ in chain_terms)
+    # ---- product over the nodes of each chain
+    problems = []
+    n_products = 0
+    for eaches, term in chain_terms:
+        chain = _chain_of(term)
+        for pc, val in cases(term):
+            for f in chain_factors(val, sx):
+                if f[0] != "foreach":
+                    continue
+                lv, pcs, x = unwrap(f)
+                n_products += 1
+                if pcs:
+                    problems.append(f"node factors are only multiplied in when `{show_pc(pcs)[:80]}`: nodes are skipped")
+                for e in lv:
+                    ok, why = whole_collection(e[1])
+                    if ok is False:
+                        problems.append(f"not every node is multiplied in: {why}")
+                    elif ok is None:
+                        raise model.undecided(f"cannot decide whether the product runs over all nodes: {why}")
+                    base = e[1]
+                    while (base[0] == "call" and base[1][0] == "builtin" and base[1][1] in WHOLE_BUILTINS and base[2]) or (base[0] == "sub" and base[2][0] == "slice"):
+                        base = base[2][0] if base[0] == "call" else base[1]
+                    if chain not in (None, False) and not (base[0] == "attr" and base[2] == "nodes" and base[1] == ("attr", chain, "topology")):
+                        if not_followed(base, KNOWN) is None and base[0] == "attr" and base[2] == "nodes":
+                            problems.append(f"the product runs over `{sx_show(base)[:60]}`, not over the nodes of the chain `{sx_show(chain)[:40]}`")
+                        else:
+                            raise model.undecided(f"the product runs over `{sx_show(base)[:60]}`: not recognised as the nodes of the chain")
+                    if not contains(x, e):
+                        problems.append("the node factor does not depend on the node")
+                problems += early_exits(sx, lv)
+    if not n_products and not any(p for p in problems):
+        pass  # reported by `returns-product` (check_products)
+    ctx.verdict(not problems, "R-FOLD", f"{SEQ}::product-over-nodes", model.where(SEQ),
+                f"every node of the chain's topology contributes its factor, unconditionally ({n_products} product(s) on the paths of the chain amplitude)", sorted(set(problems)) or None)
+    # ---- every group of outer spin projections / every topology is registered
+    problems = []
+    groups = model.group_component_stores()
+    for s in [store, *groups]:
+        if s.pc and s is not store:
+            problems.append(f"`{s.text}` only runs when `{show_pc(s.pc)[:80]}`")
+        for e in s.ranges:
+            ok, why = whole_collection(e[1])
+            if ok is False:
+                problems.append(f"`{s.text}` does not run for every element: {why}")
+            elif ok is None:
+                raise model.undecided(f"cannot decide whether `{s.text}` runs for a whole collection: {why}")
+    outer = [e for s in [store, *groups] for e in s.ranges]
+    problems += early_exits(sx, outer)
+    if not any(calls_of(e[1], "group_by_spin_projection") for e in outer):
+        raise model.undecided("the iteration over group_by_spin_projection(...) was not found around the stored amplitudes")
+    ctx.verdict(not problems, "R-FOLD", f"{TOP}::every-group", model.where(TOP),
+                "every group of outer spin projections and every topology of a group is registered, unconditionally", problems or None)
 
 
-def _fold_name(call: ast.Call) -> str | None:
-    f = call.func
-    name = f.id if isinstance(f, ast.Name) else f.attr if isinstance(f, ast.Attribute) else None
-    return name if name in FOLDS else None
-
-
-def _fold_consumer(comp: ast.AST, rd: RD, fn: FuncInfo) -> str | None:
-    """How is the comprehension consumed: directly by a fold call, or via a local that is."""
-    parent = getattr(comp, "_parent", None)
-    if isinstance(parent, ast.Starred):
-        parent = getattr(parent, "_parent", None)
-    if isinstance(parent, ast.Call) and _fold_name(parent) and comp in [a.value if isinstance(a, ast.Starred) else a for a in parent.args]:
-        return f"{_fold_name(parent)}(...)"
-    if isinstance(parent, (ast.Assign, ast.AnnAssign)):
-        tgt = parent.targets[0] if isinstance(parent, ast.Assign) else parent.target
-        if isinstance(tgt, ast.Name) and _name_folded_whole(tgt.id, fn):
-            return f"fold of `{tgt.id}`"
-    return None
-
-
-def _name_folded_whole(name: str, fn: FuncInfo) -> bool:
-    for node in walk_function(fn.node):
-        if isinstance(node, ast.Call) and _fold_name(node):
-            for a in node.args:
-                inner = a.value if isinstance(a, ast.Starred) else a
-                if isinstance(inner, ast.Name) and inner.id == name:
-                    return True
-    return False
-
-
-def _def_calls(tree: Tree, fn: FuncInfo, rd: RD, expr: ast.AST) -> set[str]:
-    """Resolved callees (and bare callee names) in ``expr`` and in everything it derives from."""
-    out: set[str] = set()
-    nodes = [expr] + [d.value for d in rd.closure(rd.uses(expr)) if d.value is not None]
-    for n in nodes:
-        for c in ast.walk(n):
-            if isinstance(c, ast.Call):
-                callee = tree.callee(c, fn)
-                if callee:
-                    out.add(callee)
-                out.add(unparse(c.func).split(".")[-1])
-    return out
+def _chain_cases(model: ChainModel):
+    """[(path condition, factors)] of the chain amplitude (the generic term of the coherent sum)."""
+    stores, terms = coherent_sum(model)
+    if len(stores) != 1 or not terms:
+        return None
+    generic = [t for e, _, t in terms if e]
+    if len(generic) != 1:
+        return None
+    term = generic[0]
+    return term, [(pc, chain_factors(val, model.sx)) for pc, val in cases(term)]
 
 
 def check_amplitude_stored(ctx: Check, tree: Tree) -> None:
     """The coherent sum over the chains of a topology group is stored, unconditionally, as the
     definition of the amplitude symbol the intensity refers to."""
-    tam = tree.func(f"{BUILDER}.__formulate_topology_amplitude")
-    tard = RD(tam.node)
-    stores = [n for n in walk_function(tam.node) if isinstance(n, ast.Assign) and isinstance(n.targets[0], ast.Subscript) and unparse(n.targets[0].value).endswith(".amplitudes")]
-    ok = False
-    if len(stores) == 1 and not any(isinstance(a, (ast.If, ast.For)) for a in ancestors(stores[0]) if a is not tam.node):
-        keyc = _def_calls(tree, tam, tard, stores[0].targets[0].slice)
-        rets_t = [r for r, _ in tard.returns]
-        same_value = len(rets_t) == 1 and isinstance(stores[0].value, ast.Name) and isinstance(rets_t[0].value, ast.Name) and tard.reaching(stores[0].value) == tard.reaching(rets_t[0].value)
-        ok = "create_amplitude_symbol" in keyc and same_value
-    ctx.verdict(ok, "R-FOLD", f"{tam.qual}::amplitude-stored", tree.loc(tam.node), "the coherent sum that is returned is also stored unconditionally as model.amplitudes[create_amplitude_symbol(...)]")
+    model = chain_model(tree)
+    stores = model.amplitude_stores()
+    if model.unread:
+        raise model.undecided("the amplitudes of the model are modified in a way the rule cannot read")
+    key = f"{TAM}::amplitude-stored"
+    where = model.where(TAM)
+    what = "the coherent sum that is returned is also stored unconditionally as model.amplitudes[create_amplitude_symbol(...)]"
+    if not stores:
+        if model.loose_ends():
+            raise model.undecided("no write into the amplitudes of the model was found")
+        ctx.violation("R-FOLD", key, where, what, "no write into the amplitudes of the model on the formulate path")
+        return
+    problems = []
+    if len(stores) != 1:
+        raise model.undecided(f"{len(stores)} writes into the amplitudes of the model (one expected)")
+    s = stores[0]
+    if s.pc:
+        problems.append(f"stored only when `{show_pc(s.pc)[:100]}`")
+    if not calls_of(s.key, "create_amplitude_symbol"):
+        why = not_followed(s.key, KNOWN)
+        if why:
+            raise model.undecided(f"the key of `{s.text}` is not read: {why}")
+        problems.append(f"the key `{sx_show(s.key)[:60]}` is not create_amplitude_symbol(...)")
+    if [e for e in s.ranges if calls_of(e[1], "_perform_combinatorics")]:
+        problems.append("written once per symmetrisation graph (the key follows the permuted graph): the symbol the intensity refers to does not hold the sum over all chains")
+    # the very value that flows on into the intensity component of the group
+    groups = model.group_component_stores()
+    if len(groups) == 1 and not contains(groups[0].value, s.value):
+        why = not_followed(groups[0].value, KNOWN) or not_followed(s.value, KNOWN)
+        if why:
+            raise model.undecided(f"cannot compare the stored amplitude with the sum that is returned: {why}")
+        problems.append("the stored value is not the coherent sum that the group intensity is built from")
+    ctx.verdict(not problems, "R-FOLD", key, where, what, problems or None)
+
+
+def _prefactor_state(pc):
+    """True: the path condition says the prefactor is None; False: it is not None; None: the path says nothing;
+    "?" : it tests the prefactor in a way this reading does not interpret."""
+    state = None
+    for t, o in pc:
+        if not calls_of(t, "__generate_amplitude_prefactor"):
+            continue
+        if t[0] == "cmp" and t[1] in {"is", "=="} and ("const", None) in (t[2], t[3]):
+            other = t[2] if t[3] == ("const", None) else t[3]
+            if other[0] == "call" and func_name(other).endswith("__generate_amplitude_prefactor"):
+                state = o
+                continue
+        return "?"
+    return state
 
 
 def check_products(ctx: Check, tree: Tree, symmetrisation: bool = True) -> None:
     """coefficient x product(nodes) x prefactor; |coherent sum|^2 ; D x dynamics (x CG)."""
-    seq = tree.func(f"{BUILDER}.__formulate_sequential_decay")
-    rd = RD(seq.node)
-    rets = [r for r, _ in rd.returns if r.value is not None]
-    if not rets:
-        raise AnalysisError("__formulate_sequential_decay: no return")
-    calls = set()
-    for r_ in rets:
-        calls |= set(_def_calls(tree, seq, rd, r_.value))
-    ok = "reduce" in calls and "__generate_amplitude_coefficient" in calls and "_formulate_partial_decay" in calls
-    ctx.verdict(ok, "R-FOLD", f"{seq.qual}::returns-product", tree.loc(rets[0]),
-                "sequential amplitude = coefficient x reduce(mul, partial decays of all nodes) [x prefactor]", None if ok else sorted(c for c in calls if "::" not in c))
-    # `X *= P`, or the same update spelled out: `X = X * P` / `X = P * X` (the factor is `.value` of the pair)
-    mults = [m for m in (_self_multiplication(n) for n in walk_function(seq.node)) if m is not None and "__generate_amplitude_prefactor" in _def_calls(tree, seq, rd, m.value)]
-    problems = []
-    ret_mults = [r_ for r_ in rets if isinstance(r_.value, ast.BinOp) and isinstance(r_.value.op, ast.Mult)
-                 and any("__generate_amplitude_prefactor" in _def_calls(tree, seq, rd, side) for side in (r_.value.left, r_.value.right))]
-    if not mults and len(ret_mults) == 1:
-        # `if prefactor is None: return expression` / `return prefactor * expression`
-        pside = next(side for side in (ret_mults[0].value.left, ret_mults[0].value.right) if "__generate_amplitude_prefactor" in _def_calls(tree, seq, rd, side))
-        pname = unparse(pside)
-        early = [n for n in walk_function(seq.node) if isinstance(n, ast.If) and isinstance(n.test, ast.Compare) and len(n.test.ops) == 1 and isinstance(n.test.ops[0], ast.Is)
-                 and unparse(n.test.left) == pname and isinstance(n.test.comparators[0], ast.Constant) and n.test.comparators[0].value is None and any(isinstance(b_, ast.Return) for b_ in n.body)]
-        if not early and any(r_ is not ret_mults[0] for r_ in rets):
-            problems.append("a path returns the amplitude without the prefactor although it is not None")
-    elif len(mults) != 1:
-        problems.append(f"{len(mults)} statements multiply the prefactor into the amplitude")
-    else:
-        guards = [a for a in ancestors(mults[0].node) if isinstance(a, ast.If)]
-        pname = unparse(mults[0].value)
-        for g in guards:
-            t = g.test
-            ok_g = isinstance(t, ast.Compare) and len(t.ops) == 1 and isinstance(t.ops[0], ast.IsNot) and unparse(t.left) == pname and isinstance(t.comparators[0], ast.Constant) and t.comparators[0].value is None
-            if not ok_g:
-                problems.append(f"the multiplication is guarded by `{unparse(t)}`, not by `{pname} is not None`")
-    ctx.verdict(not problems, "R-FOLD", f"{seq.qual}::prefactor-multiplies", tree.loc(seq.node), "the parity prefactor multiplies the whole sequential amplitude whenever there is one", problems or None)
-    # every definition of the returned value is a plain product (coefficient x product of the nodes)
-    bad = []
-    if isinstance(rets[0].value, ast.Name):
-        for d in rd.reaching(rets[0].value):
-            if d.kind == "assign" and isinstance(d.value, ast.AST):
-                leaves: list = []
-                if not _product_leaves(d.value, leaves):
-                    bad.append(unparse(d.node)[:80])
-    ctx.verdict(not bad, "R-FOLD", f"{seq.qual}::plain-product", tree.loc(rets[0]), "every definition of the sequential amplitude is a plain product (coefficient * product of the node factors)", bad or None)
-    red = [n for n in walk_function(seq.node) if isinstance(n, ast.Call) and _fold_name(n) == "reduce"]
-    ok = len(red) == 1 and unparse(red[0].args[0]) in {"operator.mul", "mul"}
-    ctx.verdict(ok, "R-FOLD", f"{seq.qual}::reduce-mul", tree.loc(seq.node), "the per-node factors are combined with operator.mul")
+    model = chain_model(tree)
+    sx = model.sx
+    where = model.where(SEQ)
+    got = _chain_cases(model)
+    if got is None:
+        stores, terms = coherent_sum(model)
+        if model.loose_ends() or (len(stores) == 1 and not_followed(stores[0].value, KNOWN)):
+            raise model.undecided("the chain amplitude (the term of the coherent sum) was not found")
+        ctx.violation("R-FOLD", f"{SEQ}::returns-product", where, "sequential amplitude = coefficient x product of the partial decays of all nodes [x prefactor]",
+                      f"no single generic term in the coherent sum ({len(stores)} amplitude writes)")
+        check_amplitude_stored(ctx, tree)
+        return
+    term, per_case = got
+    chain = _chain_of(term)
+    if chain is False:
+        raise model.undecided("the coefficient / prefactor / partial decays of one chain amplitude refer to different transitions")
+    shape, prefactor, plain, folds = [], [], [], []
+    for c in subterms(term):
+        if c[0] == "call" and func_name(c) in {"sympy.Mul", "sympy.Add"} and any(k == "evaluate" and as_number(x) == 0 or (k == "evaluate" and x == ("const", False)) for k, x in c[3]):
+            plain.append(f"`{sx_show(c)[:100]}` is an UNEVALUATED {func_name(c).split('.')[-1]}: the amplitude is not the canonical product (rebuilding the expression - xreplace, pickle - changes it)")
+    for pc, fs in per_case:
+        on = f" on the path `{show_pc(pc)[:80]}`" if pc else ""
+        coeff = [f for f in fs if f[0] == "call" and func_name(f).endswith("__generate_amplitude_coefficient")]
+        pref = [f for f in fs if f[0] == "call" and func_name(f).endswith("__generate_amplitude_prefactor")]
+        prods = [f for f in fs if f[0] == "foreach"]
+        rest = [f for f in fs if f not in coeff and f not in pref and f not in prods and as_number(f) != 1]
+        for f in rest:
+            if f[0] == "fold" and addends(f, sx) is not None:
+                folds.append(f"the per-node factors are ADDED{on}: `{sx_show(f)[:80]}`")
+            elif f[0] == "binop" and f[1] in {"/", "+", "-", "**", "//", "%"} and not_followed(f, KNOWN) is None:
+                plain.append(f"`{sx_show(f)[:100]}`{on} is not a product")
+            elif f[0] == "call" and func_name(f) in {"sympy.Add"} and not_followed(f, KNOWN) is None:
+                plain.append(f"`{sx_show(f)[:100]}`{on} is not a product")
+            else:
+                raise model.undecided(f"a factor of the chain amplitude is not understood: `{sx_show(f)[:100]}` ({not_followed(f, KNOWN) or 'not a coefficient, prefactor or product over the nodes'})")
+        couplings = any(o is True and any(x[0] == "attr" and x[2] == "use_helicity_couplings" for x in subterms(t)) for t, o in pc)
+        if len(prods) != 1 and not any("ADDED" in x for x in folds):
+            shape.append(f"{len(prods)} products over the nodes{on} (one expected)")
+        for p in prods:
+            _, _, x = unwrap(p)
+            direct = x[0] == "call" and func_name(x).endswith("_formulate_partial_decay")
+            if not direct:
+                why = not_followed(x, KNOWN)
+                if why:
+                    raise model.undecided(f"the factor of a node is not read: {why}")
+                shape.append(f"the factor of a node is `{sx_show(x)[:100]}`{on}, not the value of _formulate_partial_decay(chain, node) (the overridable per-node amplitude)")
+            elif chain is not None and (len(x[2]) < 2 or x[2][0] != chain):
+                shape.append(f"the factor of a node is formulated for `{sx_show(x[2][0])[:40] if x[2] else ''}`, not for the chain")
+        if not coeff and not couplings:
+            shape.append(f"the amplitude coefficient is not a factor{on}")
+        if len(coeff) > 1:
+            shape.append(f"the amplitude coefficient is multiplied in {len(coeff)} times{on}")
+        state = _prefactor_state(pc)
+        if state == "?":
+            raise model.undecided(f"the parity prefactor is tested in a way the rule does not interpret (`{show_pc(pc)[:100]}`)")
+        if state is True and pref:
+            prefactor.append("the prefactor is multiplied in on the path where it is None")
+        if state is False and len(pref) != 1:
+            prefactor.append(f"{len(pref)} multiplications by the prefactor on the path where it is not None (one expected)")
+        if state is None and len(pref) != 1:
+            prefactor.append(f"{len(pref)} multiplications by the parity prefactor{on} (one expected)" if pref else f"the parity prefactor never multiplies the amplitude{on}")
+    ctx.verdict(not shape, "R-FOLD", f"{SEQ}::returns-product", where,
+                "sequential amplitude = coefficient x product over the nodes of _formulate_partial_decay(chain, node) [x prefactor]", sorted(set(shape)) or None)
+    ctx.verdict(not prefactor, "R-FOLD", f"{SEQ}::prefactor-multiplies", where, "the parity prefactor multiplies the whole sequential amplitude whenever there is one", sorted(set(prefactor)) or None)
+    ctx.verdict(not plain, "R-FOLD", f"{SEQ}::plain-product", where, "every path of the sequential amplitude is a plain product (coefficient * product of the node factors)", sorted(set(plain)) or None)
+    ctx.verdict(not folds, "R-FOLD", f"{SEQ}::reduce-mul", where, "the per-node factors are combined by multiplication", folds or None)
     check_amplitude_stored(ctx, tree)
-    def is_components(e) -> bool:
-        if unparse(e).endswith(".components"):
-            return True
-        if isinstance(e, ast.Name):  # a local alias of the mapping
-            defs = list(rd.reaching(e))
-            return bool(defs) and all(d.value is not None and d.index is None and unparse(d.value).endswith(".components") for d in defs)
-        return False
-
-    cstores = [n for n in walk_function(seq.node) if isinstance(n, ast.Assign) and isinstance(n.targets[0], ast.Subscript) and is_components(n.targets[0].value)]
-    # what is stored: `C[k] = expr` (overwrite) or `C[k] = C.get(k, 0) + expr` / `C[k] += expr` after a default (accumulate)
-    stored_name, accumulates = None, False
-    aug = [n for n in walk_function(seq.node) if isinstance(n, ast.AugAssign) and isinstance(n.op, ast.Add) and isinstance(n.target, ast.Subscript) and is_components(n.target.value)]
-    store_node = cstores[0] if len(cstores) == 1 else None
-    if store_node is not None:
-        v = store_node.value
-        if isinstance(v, ast.Name):
-            stored_name = v
-        elif isinstance(v, ast.BinOp) and isinstance(v.op, ast.Add):
-            mapping_txt, key_txt = unparse(store_node.targets[0].value), unparse(store_node.targets[0].slice)
-            for prev, new_ in ((v.left, v.right), (v.right, v.left)):
-                is_prev = (isinstance(prev, ast.Call) and isinstance(prev.func, ast.Attribute) and prev.func.attr == "get" and unparse(prev.func.value) == mapping_txt
-                           and len(prev.args) == 2 and unparse(prev.args[0]) == key_txt and unparse(prev.args[1]) in {"0", "sp.S.Zero", "S.Zero", "sp.Integer(0)"})
-                if is_prev and isinstance(new_, ast.Name):
-                    stored_name, accumulates = new_, True
-    elif not cstores and len(aug) == 1 and isinstance(aug[0].value, ast.Name):
-        store_node, stored_name, accumulates = aug[0], aug[0].value, True
-    ok = (store_node is not None and stored_name is not None and not any(isinstance(a, (ast.If, ast.For)) for a in ancestors(store_node) if a is not seq.node)
-          and all(isinstance(r_.value, ast.Name) and rd.reaching(stored_name) == rd.reaching(r_.value) for r_ in rets))
-    ctx.verdict(ok, "R-FOLD", f"{seq.qual}::component-stored", tree.loc(seq.node), "every chain amplitude that is returned is stored unconditionally as component A_{...} (the complete expression incl. prefactor)")
+    # ---- the chain component A_{...}
+    comps = model.chain_component_stores()
+    problems = []
+    accumulates = False
+    if len(comps) != 1:
+        if not comps and not model.loose_ends():
+            problems.append("no A_{...} component is stored for the chain")
+        else:
+            raise model.undecided(f"{len(comps)} writes of chain components (one expected)")
+    else:
+        c = comps[0]
+        if c.pc:
+            problems.append(f"the component is only stored when `{show_pc(c.pc)[:80]}`")
+        stored = c.value
+        parts = addends(stored, sx)
+        if stored != term and parts is not None:
+            start, items = parts
+            items = ([] if as_number(start) == 0 else [start]) + list(items)
+            prev = [x for x in items if _is_previous_entry(x, c)]
+            new = [x for x in items if x not in prev]
+            if prev and len(new) == 1:
+                accumulates, stored = True, new[0]
+        if stored != term:
+            why = not_followed(stored, KNOWN)
+            if why:
+                raise model.undecided(f"the stored chain component is not read: {why}")
+            problems.append(f"the stored component `{sx_show(stored)[:120]}` is not the complete chain amplitude that enters the coherent sum")
+    ctx.verdict(not problems, "R-FOLD", f"{SEQ}::component-stored", where, "every chain amplitude that enters the coherent sum is stored unconditionally as component A_{...} (the complete expression incl. prefactor)", problems or None)
     # the store runs once per graph of the identical-particle symmetrisation, and the key is a LABEL of the
     # chain (particle names and projections): the permuted graphs of one transition have equal labels by
     # construction (qrules permutes final states of equal name).  A plain assignment keeps the last
     # permutation only; the component of a chain must hold the chain and its symmetrisation partners.
-    if symmetrisation and store_node is not None and stored_name is not None:
-        key = store_node.targets[0].slice if isinstance(store_node, ast.Assign) else store_node.target.slice
-        label_only = "generate_amplitude_name" in _def_calls(tree, seq, rd, key) or any(
-            "generate_amplitude_name" in unparse(d.value) for d in rd.closure(rd.uses(key)) if d.value is not None)
-        graph = tree.call_graph()
-        topo = f"{BUILDER}.__formulate_topology_amplitude"
-        per_graph = seq.qual in tree.reachable(topo, graph) and any(
-            isinstance(c, ast.Call) and unparse(c.func).endswith("_perform_combinatorics") for c in walk_function(tree.func(topo).node))
-        ok_acc = accumulates or not (label_only and per_graph)
-        ctx.verdict(ok_acc, "R-FOLD", f"{seq.qual}::component-accumulates-over-symmetrisation", tree.loc(store_node),
+    if symmetrisation and len(comps) == 1 and not problems:
+        c = comps[0]
+        per_graph = bool([e for e in c.ranges if calls_of(e[1], "_perform_combinatorics")])
+        ok_acc = accumulates or not per_graph
+        ctx.verdict(ok_acc, "R-FOLD", f"{SEQ}::component-accumulates-over-symmetrisation", where,
                     "the A_{...} component of a chain holds the chain AND its identical-particle permutations (equal labels): the store accumulates",
-                    None if ok_acc else f"`{unparse(store_node)[:80]}` overwrites: of the graphs returned by _perform_combinatorics only the last one is kept under the shared name, "
+                    None if ok_acc else f"`{c.text}` overwrites: of the graphs returned by _perform_combinatorics only the last one is kept under the shared name, "
                                         "so the components no longer add up to the amplitudes")
-    top = tree.func(f"{BUILDER}.__formulate_top_expression")
-    trd = RD(top.node)
-    ps = [n for n in walk_function(top.node) if isinstance(n, ast.Call) and unparse(n.func) == "PoolSum"]
-    ok = False
-    if len(ps) == 1 and ps[0].args:
-        a0 = ps[0].args[0]
-        if isinstance(a0, ast.BinOp) and isinstance(a0.op, ast.Pow) and unparse(a0.right) == "2" and isinstance(a0.left, ast.Call) and unparse(a0.left.func) in {"sp.Abs", "Abs", "abs"} and len(a0.left.args) == 1:
-            ok = "formulate_amplitude" in _def_calls(tree, top, trd, a0.left.args[0])
-    ctx.verdict(ok, "R-FOLD", f"{top.qual}::abs-squared", tree.loc(top.node), "intensity = PoolSum(|coherent amplitude|^2, outer spin projections)",
-                None if ok else (unparse(ps[0].args[0]) if ps else "no PoolSum"))
-    for qual, factors in ((f"{BUILDER}._formulate_partial_decay", {"formulate_isobar_wigner_d", "__formulate_dynamics"}), (f"{HEL}::CanonicalAmplitudeBuilder._formulate_partial_decay", {"formulate_isobar_cg_coefficients", "_formulate_partial_decay"})):
-        fn = tree.func(qual)
-        frd = RD(fn.node)
-        bad = []
-        for r in walk_function(fn.node):
-            if isinstance(r, ast.Return) and r.value is not None:
-                leaves: list = []
-                ok_shape = _product_leaves(r.value, leaves)
-                got = set()
-                for leaf in leaves:
-                    got |= {c for c in _def_calls(tree, fn, frd, leaf) if "::" not in c}
-                if not ok_shape or not factors <= got:
-                    bad.append(unparse(r.value))
-        ctx.verdict(not bad, "R-FOLD", f"{qual}::product", tree.loc(fn.node), f"{qual.split('::')[-1]} returns the product of the results of {sorted(factors)}", bad or None)
-    reg = tree.func(f"{BUILDER}.__register_amplitudes")
-    rrd = RD(reg.node)
-    comp_stores = [n for n in walk_function(reg.node) if isinstance(n, ast.Assign) and isinstance(n.targets[0], ast.Subscript) and "components" in unparse(n.targets[0])]
-    ok = False
-    if len(comp_stores) == 1:
-        v = comp_stores[0].value
-        if isinstance(v, ast.BinOp) and isinstance(v.op, ast.Pow) and unparse(v.right) == "2" and isinstance(v.left, ast.Call) and unparse(v.left.func) in {"sp.Abs", "Abs"}:
-            ok = "__formulate_topology_amplitude" in _def_calls(tree, reg, rrd, v.left.args[0])
-    ctx.verdict(ok, "R-FOLD", f"{reg.qual}::component", tree.loc(reg.node), "component I_{...} = |sum over the topologies of the group|^2")
+    # ---- intensity = PoolSum(|A|^2, ...)
+    ret = model.ret
+    pools = [x for x in subterms(ret) if x[0] == "call" and func_name(x).endswith("PoolSum")]
+    ok, detail = False, None
+    if len(pools) != 1 or not pools[0][2]:
+        why = not_followed(ret, KNOWN)
+        if why or len(pools) > 1:
+            raise model.undecided(f"the returned intensity is not read: {why or 'several PoolSum'}")
+        detail = f"`{sx_show(ret)[:120]}` is not a PoolSum"
+    else:
+        inner = _abs_squared(pools[0][2][0])
+        if inner is None:
+            why = not_followed(pools[0][2][0], KNOWN)
+            if why:
+                raise model.undecided(f"the summand of the intensity is not read: {why}")
+            detail = sx_show(pools[0][2][0])[:160]
+        elif not calls_of(inner, "formulate_amplitude"):
+            why = not_followed(inner, KNOWN)
+            if why:
+                raise model.undecided(f"the amplitude of the intensity is not read: {why}")
+            detail = f"|{sx_show(inner)[:100]}|^2 is not built from formulate_amplitude(...)"
+        else:
+            ok = True
+    ctx.verdict(ok, "R-FOLD", f"{TOP}::abs-squared", model.where(TOP), "intensity = PoolSum(|coherent amplitude|^2, outer spin projections)", detail)
+    for qual, wanted in ((f"{BUILDER}._formulate_partial_decay", ("formulate_isobar_wigner_d", "__formulate_dynamics")),
+                         (f"{HEL}::CanonicalAmplitudeBuilder._formulate_partial_decay", ("formulate_isobar_cg_coefficients", "_formulate_partial_decay"))):
+        _check_partial_decay(ctx, tree, qual, wanted)
+    # ---- the group component I_{...} = |sum over the topologies|^2
+    groups = model.group_component_stores()
+    if len(groups) != 1:
+        if not groups and not model.loose_ends():
+            ctx.violation("R-FOLD", f"{REG}::component", model.where(REG), "component I_{...} = |sum over the topologies of the group|^2", "no I_{...} component is stored")
+            return
+        raise model.undecided(f"{len(groups)} writes of group components (one expected)")
+    g = groups[0]
+    inner = _abs_squared(g.value)
+    problems = []
+    if inner is None:
+        why = not_followed(g.value, KNOWN)
+        if why:
+            raise model.undecided(f"the group component is not read: {why}")
+        problems.append(f"`{sx_show(g.value)[:120]}` is not |...|^2")
+    else:
+        terms = _sum_terms(inner, sx)
+        amp = model.amplitude_stores()
+        if terms is None or len(amp) != 1:
+            why = not_followed(inner, KNOWN)
+            if why or len(amp) != 1:
+                raise model.undecided(f"the sum inside the group component is not read: {why or 'amplitude writes'}")
+            problems.append(f"`{sx_show(inner)[:120]}` is not a sum over the topologies")
+        else:
+            for eaches, pcs, t in terms:
+                if pcs:
+                    problems.append(f"topologies are only added when `{show_pc(pcs)[:80]}`")
+                if t != amp[0].value:
+                    why = not_followed(t, KNOWN)
+                    if why:
+                        raise model.undecided(f"a term of the group component is not read: {why}")
+                    problems.append("a term of the group component is not the stored topology amplitude")
+                for e in eaches:
+                    okw, why = whole_collection(e[1])
+                    if okw is False:
+                        problems.append(f"not every topology is summed: {why}")
+                    elif okw is None:
+                        raise model.undecided(f"cannot decide whether every topology is summed: {why}")
+    ctx.verdict(not problems, "R-FOLD", f"{REG}::component", model.where(REG), "component I_{...} = |sum over the topologies of the group|^2", problems or None)
 
 
-class _SelfMult:
-    def __init__(self, node: ast.stmt, value: ast.AST) -> None:
-        self.node, self.value = node, value
-
-
-def _self_multiplication(n: ast.AST) -> "_SelfMult | None":
-    """``X *= F`` or ``X = X * F`` / ``X = F * X`` for a plain local X: the statement and the factor F."""
-    if isinstance(n, ast.AugAssign) and isinstance(n.op, ast.Mult):
-        return _SelfMult(n, n.value)
-    if (isinstance(n, ast.Assign) and len(n.targets) == 1 and isinstance(n.targets[0], ast.Name)
-            and isinstance(n.value, ast.BinOp) and isinstance(n.value.op, ast.Mult)):
-        x = n.targets[0].id
-        for me, factor in ((n.value.left, n.value.right), (n.value.right, n.value.left)):
-            if isinstance(me, ast.Name) and me.id == x and not any(isinstance(m, ast.Name) and m.id == x for m in ast.walk(factor)):
-                return _SelfMult(n, factor)
-    return None
-
-
-def _product_leaves(node: ast.AST, out: list) -> bool:
-    if isinstance(node, ast.BinOp) and isinstance(node.op, ast.Mult):
-        return _product_leaves(node.left, out) and _product_leaves(node.right, out)
-    if isinstance(node, (ast.Name, ast.Call)):
-        out.append(node)
+def _is_previous_entry(x, store: Store) -> bool:
+    """``mapping.get(key, 0)`` / ``mapping[key]`` of the very mapping and key that ``store`` writes."""
+    if x[0] == "sub" and _self_mapping(x[1]) == store.mapping and x[2] == store.key:
         return True
+    if x[0] == "call" and x[1][0] == "attr" and x[1][2] in {"get", "setdefault", "pop"} and _self_mapping(x[1][1]) == store.mapping and len(x[2]) == 2 and not x[3]:
+        return x[2][0] == store.key and as_number(x[2][1]) == 0
     return False
 
 
-LOSSY = {"int", "round", "abs", "bool", "floor", "ceil", "trunc", "len", "hash"}
-INJECTIVE = {"tuple", "sorted", "list", "float", "Rational", "Fraction", "str", "repr", "frozenset", "Decimal"}
+def _abs_squared(v):
+    """``x`` if ``v`` is ``|x|^2`` (``Abs(x)**2``, ``abs(x)**2``, ``x * conjugate(x)``), else None."""
+    def absolute(t):
+        if t[0] == "call" and func_name(t) in {"sympy.Abs", "abs"} and len(t[2]) == 1 and not t[3]:
+            return t[2][0]
+        return None
 
-
-def _anc2(node):
-    from ..loader import ancestors as _a
-
-    return _a(node)
-
-
-def _group_store_key(n: ast.AST) -> ast.AST | None:
-    """The key expression if ``n`` adds an element to the list kept under a key of a mapping:
-    ``m[key].append(x)`` (defaultdict, or after `if key not in m: m[key] = []`), ``m.setdefault(key, []).append(x)``,
-    ``m[key] = m.get(key, []) + [x]`` / ``m[key] = [*m.get(key, []), x]``."""
-    if isinstance(n, ast.Call) and isinstance(n.func, ast.Attribute) and n.func.attr in {"append", "extend"}:
-        recv = n.func.value
-        if isinstance(recv, ast.Subscript) and not isinstance(recv.slice, ast.Slice):
-            return recv.slice
-        if isinstance(recv, ast.Call) and isinstance(recv.func, ast.Attribute) and recv.func.attr == "setdefault" and len(recv.args) == 2 and not recv.keywords:
-            return recv.args[0]
-    if isinstance(n, ast.Assign) and len(n.targets) == 1 and isinstance(n.targets[0], ast.Subscript) and not isinstance(n.targets[0].slice, ast.Slice):
-        mapping, key = unparse(n.targets[0].value), unparse(n.targets[0].slice)
-        gets = [c for c in ast.walk(n.value) if isinstance(c, ast.Call) and isinstance(c.func, ast.Attribute) and c.func.attr == "get"
-                and unparse(c.func.value) == mapping and len(c.args) == 2 and unparse(c.args[0]) == key and isinstance(c.args[1], (ast.List, ast.Tuple)) and not c.args[1].elts]
-        if len(gets) == 1 and isinstance(n.value, (ast.BinOp, ast.List)):
-            return n.targets[0].slice
+    if v[0] == "binop" and v[1] == "**" and as_number(v[3]) == 2:
+        return absolute(v[2])
+    if v[0] == "call" and func_name(v) == "sympy.Pow" and len(v[2]) == 2 and as_number(v[2][1]) == 2:
+        return absolute(v[2][0])
+    if v[0] == "mul" and len(v[1]) == 2:
+        a, b = v[1]
+        for x, y in ((a, b), (b, a)):
+            if y[0] == "call" and func_name(y) in {"sympy.conjugate"} and y[2] == (x,):
+                return x
+            if y[0] == "call" and y[1][0] == "attr" and y[1][2] == "conjugate" and y[1][1] == x and not y[2]:
+                return x
     return None
+
+
+def _check_partial_decay(ctx: Check, tree: Tree, qual: str, wanted: tuple) -> None:
+    """``_formulate_partial_decay`` returns, on every path, a plain product that contains the results of the wanted
+    functions for ITS (transition, node)."""
+    fn = tree.func(qual)
+    sx = SymEx(tree, atoms=frozenset({"formulate_isobar_wigner_d", "__formulate_dynamics", "__generate_helicity_coupling", "formulate_isobar_cg_coefficients", "_formulate_partial_decay"}))
+    ret, _ = sx.run(fn)
+    params = [("param", p) for p in fn.params[1:3]]
+    bad = []
+    for pc, val in cases(flatten_each(ret)):
+        on = f" on the path `{show_pc(pc)[:60]}`" if pc else ""
+        fs = factors(val, sx)
+        for name in wanted:
+            hits = [f for f in fs if f[0] == "call" and func_name(f).endswith(name)]
+            if not hits:
+                why = not_followed(val, (*KNOWN, "_formulate_partial_decay"))
+                if why:
+                    raise AnalysisError(f"{qual}: the returned value is not read: {why}")
+                bad.append(f"`{sx_show(val)[:100]}`{on} has no factor {name}(...)")
+            elif any(tuple(h[2][:2]) != tuple(params) for h in hits):
+                bad.append(f"`{sx_show(hits[0])[:80]}`{on} is not formulated for the (transition, node) of the call")
+        for f in fs:
+            if f[0] in {"binop", "fold"} or (f[0] == "call" and func_name(f) == "sympy.Add"):
+                if not_followed(f, (*KNOWN, "_formulate_partial_decay")) is None:
+                    bad.append(f"`{sx_show(f)[:80]}`{on} is not a factor of a plain product")
+    ctx.verdict(not bad, "R-FOLD", f"{qual}::product", tree.loc(fn.node), f"{qual.split('::')[-1]} returns the product of the results of {sorted(wanted)}", bad or None)
+
+
+
+LOSSY = {"int", "round", "abs", "bool", "floor", "ceil", "trunc", "len", "hash"}
+INJECTIVE = {"tuple", "sorted", "list", "float", "Rational", "Fraction", "str", "repr", "frozenset", "Decimal", "sympify", "Integer"}
+GROUP_FN = "ampform.helicity.decay::group_by_spin_projection"
+
+
+def _no_uid(v):
+    """Function values compared up to the serial number of a lambda."""
+    if isinstance(v, tuple) and v and v[0] == "lambda" and len(v) == 3:
+        return ("lambda", v[1])
+    return v
+
+
+def _strip_copies(v):
+    while isinstance(v, tuple) and v and v[0] == "call" and v[1][0] == "builtin" and v[1][1] in {"list", "tuple", "iter"} and len(v[2]) == 1 and not v[3]:
+        v = v[2][0]
+    return v
+
+
+def _grouping_keys(sx, ret, final) -> list:
+    """The key values under which ``group_by_spin_projection`` files a transition: ``m[key].append(t)``,
+    ``m.setdefault(key, []).append(t)``, ``m[key] = m.get(key, []) + [t]``, a dict (comprehension) whose entries are
+    keyed by it, ``itertools.groupby(sorted(ts, key=f), key=f)`` (then the key is ``f(t)``)."""
+    keys: list = []
+
+    def add(k):
+        k = flatten_each(k)
+        if k not in keys:
+            keys.append(k)
+
+    for ev in sx.events:
+        kind = ev[0]
+        if kind == "call":
+            v = ev[2]
+            f = v[1]
+            if f[0] == "attr" and f[2] in {"append", "extend", "add"}:
+                recv = f[1]
+                if recv[0] == "sub":
+                    add(recv[2])
+                elif recv[0] == "call" and recv[1][0] == "attr" and recv[1][2] == "setdefault" and len(recv[2]) == 2:
+                    add(recv[2][0])
+        elif kind == "mutate" and len(ev) >= 5 and ev[3] == "setdefault" and ev[4]:
+            add(ev[4][0])
+        elif kind == "store":
+            target = ev[2]
+            if target[0] == "sub" and ev[-1]:
+                add(target[2])
+    for v in [ret, *[x for s in final.scopes for x in s.values() if isinstance(x, tuple)]]:
+        for d in subterms(v):
+            if d[0] == "dict":
+                for k, _ in d[1]:
+                    if isinstance(k, tuple) and k and k[0] == "foreach":
+                        add(unwrap(k)[2])
+            elif d[0] == "dictcomp":
+                for item in d[1]:
+                    _, _, pair = unwrap(item)
+                    if pair[0] == "tuple" and len(pair[1]) == 2:
+                        add(pair[1][0])
+    return keys
 
 
 def check_group_key(ctx: Check, tree: Tree, state_identity: bool = True) -> None:
     """What is summed coherently is decided by the key of group_by_spin_projection: it must
     separate transitions by the (particle, spin projection) of EVERY outer state.  A key
     that maps different projections to one value merges groups: amplitudes that belong to
-    different terms of the incoherent sum are added coherently."""
-    fn = tree.func("ampform.helicity.decay::group_by_spin_projection")
+    different terms of the incoherent sum are added coherently.  The key is read as a VALUE (symbolic execution of
+    the function with its helpers inlined): which attributes of which states it contains, in which order, through
+    which conversions - not how the code that builds it is spelled."""
+    from ..symex import State
+
+    fn = tree.func(GROUP_FN)
+    sx = SymEx(tree, inline_depth=6)
+    ret, final = sx.run(fn)
+    everything = [ret, *[x for ev in sx.events for x in ev[2:-1] if isinstance(x, tuple) and x and isinstance(x[0], str)],
+                  *[x for s in final.scopes for x in s.values() if isinstance(x, tuple)]]
     # itertools.groupby only merges ADJACENT items: on an input that is not sorted by the same key the
     # items of one group arrive in several runs, and a dict built from the runs keeps only the last one
-    for gb in [n for n in walk_function(fn.node, nested=True) if isinstance(n, ast.Call) and unparse(n.func) in {"itertools.groupby", "groupby"}]:
-        keyf = next((unparse(k.value) for k in gb.keywords if k.arg == "key"), unparse(gb.args[1]) if len(gb.args) > 1 else None)
-        it = gb.args[0] if gb.args else None
-        grd = RD(fn.node)
-        srcs = [it] + [d.value for d in grd.closure(grd.uses(it)) if isinstance(d.value, ast.AST)] if it is not None else []
-        sorted_same = any(isinstance(e, ast.Call) and unparse(e.func) == "sorted" and any(k.arg == "key" and unparse(k.value) == keyf for k in e.keywords) for e in srcs)
-        ctx.verdict(sorted_same, "R-GROUPKEY", f"{fn.qual}::groupby-on-unsorted-input", tree.loc(gb),
-                    f"`{unparse(gb)[:70]}` runs over an input sorted by the same key",
+    groupbys = []
+    for v in everything:
+        for c in subterms(v):
+            if c[0] == "call" and func_name(c) == "itertools.groupby" and c not in groupbys:
+                groupbys.append(c)
+    keys = []
+    for gb in groupbys:
+        kw = dict(gb[3])
+        it = gb[2][0] if gb[2] else kw.get("iterable")
+        keyf = kw.get("key", gb[2][1] if len(gb[2]) > 1 else None)
+        if it is None:
+            raise AnalysisError("group_by_spin_projection: itertools.groupby without an iterable")
+        src = _strip_copies(it)
+        is_sorted = src[0] == "call" and src[1] == ("builtin", "sorted") and src[2]
+        sort_key = dict(src[3]).get("key") if is_sorted else None
+        sorted_same = bool(is_sorted) and _no_uid(sort_key) == _no_uid(keyf)
+        if not sorted_same:
+            # understood and broken: not sorted at all, or sorted by another NAMED function; two different lambdas are not compared
+            why = not_followed(src, ("group_by_spin_projection",))
+            if why or (is_sorted and {(sort_key or ("x",))[0], (keyf or ("x",))[0]} & {"lambda", "partial", "unknown"}):
+                raise AnalysisError(f"group_by_spin_projection: cannot decide whether the input of itertools.groupby is sorted by the group key ({why or 'two function values'})")
+        ctx.verdict(sorted_same, "R-GROUPKEY", f"{fn.qual}::groupby-on-unsorted-input", tree.loc(fn.node),
+                    f"`{show(gb)[:70]}` runs over an input sorted by the same key",
                     None if sorted_same else "transitions are ordered by topology first, so the same outer helicities recur once per topology: all but the last run of each key are dropped - whole topologies vanish from the coherent sum")
         if not sorted_same:
             return
-    stores = [k for k in (_group_store_key(n) for n in walk_function(fn.node)) if k is not None]
-    if len(stores) != 1:
-        raise AnalysisError("group_by_spin_projection: expected one store of the transition into the list of its key "
-                            "(`groups[key].append(t)` / `groups.setdefault(key, []).append(t)`)")
-    key_expr = stores[0]
-    rd = RD(fn.node)
-    # all expressions the key is built from, looking into same-module helpers
-    exprs: list[tuple[ast.AST, FuncInfo]] = [(key_expr, fn)] + [(d.value, fn) for d in rd.closure(rd.uses(key_expr)) if d.value is not None]
-    seen_helpers = set()
-    for e, owner in list(exprs):
-        for c in ast.walk(e):
-            if isinstance(c, ast.Call):
-                callee = tree.callee(c, owner)
-                if callee in tree.funcs and callee.startswith("ampform.helicity") and callee not in seen_helpers:
-                    seen_helpers.add(callee)
-                    h = tree.funcs[callee]
-                    for r in walk_function(h.node):
-                        if isinstance(r, ast.Return) and r.value is not None:
-                            exprs.append((r.value, h))
-                            hrd = RD(h.node)
-                            exprs += [(d.value, h) for d in hrd.closure(hrd.uses(r.value)) if d.value is not None]
-    proj_uses = []
-    name_uses = []
-    edge_sets = set()
-    for e, owner in exprs:
-        for n in ast.walk(e):
-            if isinstance(n, ast.Attribute) and n.attr == "spin_projection":
-                proj_uses.append((n, owner))
-            if isinstance(n, ast.Attribute) and n.attr == "name" and unparse(n).endswith(".particle.name"):
-                name_uses.append(n)
-            if isinstance(n, ast.Attribute) and n.attr in {"incoming_edge_ids", "outgoing_edge_ids"}:
-                edge_sets.add(n.attr)
-    problems = []
-    if not proj_uses:
-        problems.append("the key does not contain the spin projections")
-    if not name_uses:
-        problems.append("the key does not contain the particle names")
-    if edge_sets != {"incoming_edge_ids", "outgoing_edge_ids"}:
-        problems.append(f"the key covers {sorted(edge_sets)} only (initial AND final states are required)")
-    for n, owner in proj_uses:
-        from ..loader import ancestors as _anc
+        if keyf is None:
+            raise AnalysisError("group_by_spin_projection: itertools.groupby without a key function")
+        element = ("each", _strip_copies(src[2][0]), sx.uid())
+        keys.append(flatten_each(sx.apply(keyf, (element,), (), State([{}]))))
+    if not keys:
+        keys = _grouping_keys(sx, ret, final)
+    if len(keys) != 1:
+        raise AnalysisError(f"group_by_spin_projection: expected one store of the transition into the list of its key "
+                            f"(`groups[key].append(t)` / `groups.setdefault(key, []).append(t)`), found {len(keys)}" + (f" ({sx.imprecise[0]})" if sx.imprecise else ""))
+    key = keys[0]
+    known = ("group_by_spin_projection",)
+    unfollowed = not_followed(key, known)
+    if unfollowed is None:
+        # a function VALUE applied to a state (the result of a call, a getter the execution could not apply) hides what it reads
+        opaque = [c for c in subterms(key) if c[0] == "call" and c[1][0] not in {"global", "builtin", "method", "localfunc", "attr"}]
+        external = [c for c in subterms(key) if c[0] == "call" and c[1][0] == "global" and not c[1][1].startswith(("sympy.", "fractions.", "decimal.", "builtins.")) and func_name(c).split(".")[-1] not in INJECTIVE | LOSSY]
+        if opaque or external:
+            unfollowed = f"`{show((opaque or external)[0])[:60]}` is applied to the states: what it reads of them is not known"
+    transitions = [e for e in free_eaches(key)]
+    if len(transitions) != 1:
+        raise AnalysisError(f"group_by_spin_projection: the key depends on {len(transitions)} loop elements (the transition expected)")
+    t = transitions[0]
+    ok_whole, why = whole_collection(t[1])
+    if ok_whole is None:
+        raise AnalysisError(f"group_by_spin_projection: cannot decide whether every transition is grouped: {why}")
+    # ---- the (name, projection) sequences of the key: where they range, what they contain, how they are ordered
+    sequences = []  # (each over the state ids / states, element, wrappers between the key and the sequence)
 
-        for a in _anc(n):
-            if isinstance(a, (ast.FunctionDef, ast.Return, ast.Assign)):
-                break
-            if isinstance(a, ast.Call) and any(x is n or any(y is n for y in ast.walk(x)) for x in a.args):
-                name = a.func.id if isinstance(a.func, ast.Name) else a.func.attr if isinstance(a.func, ast.Attribute) else None
-                if name in LOSSY:
-                    problems.append(f"`{unparse(a)[:60]}` maps different spin projections to one key value (e.g. int(+1/2) == int(-1/2))")
-                elif name not in INJECTIVE and name is not None and not name[0].isupper():
-                    problems.append(f"spin projection passes through `{name}(...)`, which is not known to be injective")
-            if isinstance(a, ast.BinOp) and isinstance(a.op, (ast.FloorDiv, ast.Mod, ast.Mult)) and not isinstance(a.op, ast.Mult):
-                problems.append(f"`{unparse(a)[:50]}` is not injective in the spin projection")
+    def walk(v, wrappers):
+        if not isinstance(v, tuple) or not v or not isinstance(v[0], str):
+            return
+        if v[0] in {"list", "tuple", "set"} and any(isinstance(x, tuple) and x and x[0] == "foreach" for x in v[1]):
+            for x in v[1]:
+                eaches, pcs, elt = unwrap(x)
+                if eaches and any(y[0] == "attr" and y[2] == "spin_projection" for y in subterms(elt)):
+                    sequences.append((eaches, pcs, elt, wrappers))
+                else:
+                    walk(elt, wrappers)
+            return
+        if v[0] == "call":
+            name = func_name(v)
+            for a in v[2]:
+                walk(a, wrappers + [(name.split(".")[-1].split("::")[-1].lstrip("."), v)])
+            return
+        for x in v[1:]:
+            if isinstance(x, tuple):
+                if x and isinstance(x[0], str):
+                    walk(x, wrappers)
+                else:
+                    for y in x:
+                        walk(y, wrappers)
+
+    walk(key, [])
+    problems, id_problems = [], []
+    sides = set()
+    names_found = False
+    for eaches, pcs, elt, wrappers in sequences:
+        e = eaches[-1]
+        src = e[1]
+        ordered_ids = False
+        while src[0] == "call" and src[1][0] == "builtin" and src[1][1] in {"sorted", "list", "tuple", "iter", "reversed"} and src[2]:
+            ordered_ids = ordered_ids or (src[1][1] == "sorted" and not src[3])
+            src = src[2][0]
+        kinds = {x[2] for x in subterms(src) if x[0] == "attr" and x[2] in {"incoming_edge_ids", "outgoing_edge_ids", "initial_state", "final_state"}}
+        sides |= {"incoming_edge_ids" if k in {"incoming_edge_ids", "initial_state"} else "outgoing_edge_ids" for k in kinds}
+        if pcs:
+            problems.append(f"states are left out of the key when not `{show_pc(pcs)[:60]}`")
+        ok_w, why_w = whole_collection(e[1])
+        if ok_w is False:
+            problems.append(f"not every outer state enters the key: {why_w}")
+        parts = list(elt[1]) if elt[0] in {"tuple", "list"} else [elt]
+        if any(x[0] == "attr" and x[2] == "name" and x[1][0] == "attr" and x[1][2] == "particle" for x in subterms(elt)):
+            names_found = True
+        carries_id = any(p == e or (p[0] == "item" and p[1] == e and p[2] == 0) for p in parts)
+        # conversions between the projection and the key
+        def conversions(v, path):
+            if v[0] == "attr" and v[2] == "spin_projection":
+                yield path
+                return
+            for x in v[1:]:
+                for y in ([x] if isinstance(x, tuple) and x and isinstance(x[0], str) else x if isinstance(x, tuple) else []):
+                    if isinstance(y, tuple) and y and isinstance(y[0], str):
+                        yield from conversions(y, path + [v])
+
+        for path in conversions(elt, []):
+            for node in path:
+                if node[0] == "call":
+                    name = func_name(node).split(".")[-1].split("::")[-1]
+                    if name in LOSSY:
+                        problems.append(f"`{show(node)[:60]}` maps different spin projections to one key value (e.g. int(+1/2) == int(-1/2))")
+                    elif name not in INJECTIVE and name and not name[0].isupper():
+                        raise AnalysisError(f"group_by_spin_projection: the spin projection passes through `{name}(...)`, which is not known to be injective")
+                elif node[0] == "binop" and node[1] in {"//", "%"}:
+                    problems.append(f"`{show(node)[:50]}` is not injective in the spin projection")
+                elif node[0] in {"binop", "unop", "mul"}:
+                    pass
+        value_sorted = [w for name, w in wrappers if name == "sorted" and not w[3]]
+        unordered = [w for name, w in wrappers if name in {"set", "frozenset", "Counter"}]
+        keyed_sort = [w for name, w in wrappers if name == "sorted" and w[3]]
+        unknown_wrappers = [name for name, w in wrappers if name not in INJECTIVE | {"set", "Counter", "dict"} and not (name and name[0].isupper())]
+        if keyed_sort or unknown_wrappers:
+            raise AnalysisError(f"group_by_spin_projection: the (name, projection) pairs pass through `{(keyed_sort or [None])[0] and 'sorted(..., key=...)' or unknown_wrappers[0]}`, which is not read")
+        if carries_id:
+            continue
+        if value_sorted or unordered:
+            w = (value_sorted or unordered)[0]
+            id_problems.append(f"`{show(w)[:90]}` orders the (name, projection) pairs by value: which state carries which projection is lost")
+        elif not ordered_ids:
+            id_problems.append(f"`{show(elt)[:60]} for each of {show(e[1])[:40]}` lists the pairs in the iteration order of an id set, not by state id")
+    if not sequences:
+        if unfollowed:
+            raise AnalysisError(f"group_by_spin_projection: the group key is not read ({unfollowed})")
+        problems.append("the key does not contain the spin projections")
+        id_problems.append("no (name, projection) sequence found in the key")
+    names_found = names_found or any(x[0] == "attr" and x[2] == "name" and x[1][0] == "attr" and x[1][2] == "particle" for x in subterms(key))
+    if not names_found:
+        if unfollowed:
+            raise AnalysisError(f"group_by_spin_projection: the group key is not read ({unfollowed})")
+        problems.append("the key does not contain the particle names")
+    if sequences and sides != {"incoming_edge_ids", "outgoing_edge_ids"}:
+        if unfollowed:
+            raise AnalysisError(f"group_by_spin_projection: the group key is not read ({unfollowed})")
+        problems.append(f"the key covers {sorted(sides)} only (initial AND final states are required)")
+    if ok_whole is False:
+        problems.append(f"not every transition is grouped: {why}")
     # ... and by WHICH state carries which projection: the incoherent sum runs over the projection of
     # each outer state separately, so (state 0: +1, state 1: 0) and (state 0: 0, state 1: +1) are
     # different terms even when the two states are the same particle species.
-    id_problems = []
-    n_parts = 0
-    for e, owner in exprs:
-        for gen in [n for n in ast.walk(e) if isinstance(n, (ast.GeneratorExp, ast.ListComp))]:
-            if not any(isinstance(n, ast.Attribute) and n.attr == "spin_projection" for n in ast.walk(gen.elt)):
-                continue
-            n_parts += 1
-            loop_names = {n.id for g in gen.generators for n in ast.walk(g.target) if isinstance(n, ast.Name)}
-            elts = gen.elt.elts if isinstance(gen.elt, (ast.Tuple, ast.List)) else [gen.elt]
-            carries_id = any(isinstance(x, ast.Name) and x.id in loop_names for x in elts)
-            par = next(iter(_anc2(gen)), None)
-            sorted_values = isinstance(par, ast.Call) and unparse(par.func) == "sorted" and par.args and par.args[0] is gen and not par.keywords
-            ordered_ids = any(isinstance(g.iter, ast.Call) and unparse(g.iter.func) == "sorted" for g in gen.generators)
-            if carries_id:
-                continue
-            if sorted_values:
-                id_problems.append(f"`{unparse(par)[:90]}` orders the (name, projection) pairs by value: which state carries which projection is lost")
-            elif not ordered_ids:
-                id_problems.append(f"`{unparse(gen)[:90]}` lists the pairs in the iteration order of an id set, not by state id")
-    if n_parts < 1:  # (one sequence in a helper that is called for both sides is fine)
-        id_problems.append("no (name, projection) sequence found in the key")
     if state_identity:
-      ctx.verdict(not id_problems, "R-GROUPKEY", f"{fn.qual}::state-identity", tree.loc(fn.node),
-                  "group_by_spin_projection: the key keeps the association state id -> (particle, projection), so identical particles with exchanged projections are different groups",
-                  id_problems or None)
+        ctx.verdict(not id_problems, "R-GROUPKEY", f"{fn.qual}::state-identity", tree.loc(fn.node),
+                    "group_by_spin_projection: the key keeps the association state id -> (particle, projection), so identical particles with exchanged projections are different groups",
+                    sorted(set(id_problems)) or None)
     ctx.verdict(not problems, "R-GROUPKEY", f"{fn.qual}::injective-key", tree.loc(fn.node),
-                "group_by_spin_projection: the group key separates transitions by (particle name, spin projection) of every initial and final state, without lossy conversion", problems or None)
+                "group_by_spin_projection: the group key separates transitions by (particle name, spin projection) of every initial and final state, without lossy conversion", sorted(set(problems)) or None)
 
 
 def run(ctx: Check, tree: Tree) -> None:
